@@ -90,6 +90,8 @@ def mv_traces(rng, ntraces, length):
             ks = rng.sample(pool, nk)
             zero_sum = rng.random() < 0.15 and len(ks) >= 2
             upd = {k: (rand_frac(rng, big=rng.random() < 0.5)) for k in ks}
+            if t % 5 == 3:           # tiny magnitudes: a near-zero (but non-zero) normaliser is not a zero normaliser
+                upd = {k: v / 10 ** 12 for k, v in upd.items()}
             if zero_sum and kind == "welford" and i == 0:
                 s = sum(list(upd.values())[:-1])
                 upd[ks[-1]] = -s
